@@ -122,7 +122,7 @@ struct HInit : public ParticleSetInitialization {
 };
 
 // one resample() call on the prior-mixing object `r` (built with `ratio`)
-static std::string rwp_call(ResamplingWithPrior& r, std::mt19937_64& twin, double ratio, long n, long lin, long circ, bool quat, const VectorXd& w) {
+static std::string rwp_call(Resampling& r, std::mt19937_64& twin, double ratio, long n, long lin, long circ, bool quat, const VectorXd& w) {
     ParticleSet cor(n, lin, circ, quat), res(n, lin, circ, quat);
     fill_set(cor, 0.0); cor.weight() = w;
     fill_set(res, 5.0e6); res.weight().setConstant(777.0);
@@ -174,26 +174,59 @@ static std::string op_rwp(Toks& t) {
 
 // ----------------------------------------------------------------------------- seq
 // seq seed kind ratio ncalls (N lin circ quat w_0..w_{N-1}) x ncalls
-// ONE resampling object (kind 0: Resampling, 1: ResamplingWithPrior(ratio), 2: a copy-constructed Resampling,
-// 3: a move-assigned Resampling) serves all the calls, with different particle counts, layouts and weights;
-// one twin generator is advanced in lock-step.  Output: "ok" ncalls, then per call "|" + the block of `rs` / `rwp`.
+// ONE resampling object serves all the calls (different particle counts, layouts, weights); one twin generator is
+// advanced in lock-step.  The object is built by one of the constructor overloads, possibly handed on by copy / move
+// construction or assignment, and always used through a `Resampling*` (as the filters hold it, virtual dispatch):
+//    0 Resampling(seed)              11 Resampling()                                [seed 1]
+//    2 copy-constructed              4 move-constructed    3 move-assigned    5 copy-assigned   (Resampling)
+//    1 ResamplingWithPrior(init, ratio, seed)   9 (init, ratio) [seed 1]   10 (init) [ratio 0.5, seed 1]
+//    6 move-constructed from 1       12 move-constructed from 9    7 move-assigned from 1 onto an object built with another
+//    ratio and seed                  13 move-assigned from 10 onto such an object
+// kind + 100: the hand-over happens after the first call (the generator state must travel too).
+// The object obtained must behave as the original configured object: the blocks are those of `rs` / `rwp` for the
+// ratio and seed of the ORIGINAL.  Output: "ok" ncalls, then per call "|" + block.
 static std::string op_seq(Toks& t) {
-    unsigned long seed = t.nat(); int kind = (int)t.nat(); double ratio = t.dbl(); long calls = t.nat();
+    typedef ResamplingWithPrior RWP;
+    unsigned long seed_in = t.nat(); int kind = (int)t.nat(); double ratio = t.dbl(); long calls = t.nat();
     std::vector<long> ns, lins, circs; std::vector<bool> quats; std::vector<VectorXd> ws;
     for (long c = 0; c < calls; ++c) {
         long n = t.nat(); ns.push_back(n); lins.push_back(t.nat()); circs.push_back(t.nat()); quats.push_back(t.flag()); ws.push_back(t.vec(n));
     }
     t.done();
-    std::mt19937_64 twin(static_cast<unsigned int>(seed));
-    Resampling plain(static_cast<unsigned int>(seed));
-    Resampling copy(plain);                                  // copies the generator state
-    Resampling moved(12345u); moved = Resampling(static_cast<unsigned int>(seed));
-    ResamplingWithPrior prior(std::unique_ptr<ParticleSetInitialization>(new HInit()), ratio, static_cast<unsigned int>(seed));
+    bool late = kind >= 100; kind %= 100;
+    unsigned int seed = static_cast<unsigned int>(seed_in);
+    auto init = [] { return std::unique_ptr<ParticleSetInitialization>(new HInit()); };
+    bool prior = (kind == 1 || kind == 6 || kind == 7 || kind == 9 || kind == 10 || kind == 12 || kind == 13);
+    double other = (ratio == 0.5) ? 0.25 : 0.5;          // configuration of the object that is assigned onto
+    std::unique_ptr<Resampling> A, B;
+    switch (kind) {
+        case 0: case 2: case 3: case 4: case 5: A.reset(new Resampling(seed)); break;
+        case 11: A.reset(new Resampling()); seed = 1; break;
+        case 1: case 6: case 7: A.reset(new RWP(init(), ratio, seed)); break;
+        case 9: case 12: A.reset(new RWP(init(), ratio)); seed = 1; break;
+        case 10: case 13: A.reset(new RWP(init())); seed = 1; ratio = 0.5; break;
+        default: throw vh::BadArgs("kind");
+    }
+    std::mt19937_64 twin(seed);
+    auto hand_over = [&]() {
+        switch (kind) {
+            case 2: B.reset(new Resampling(*A)); break;
+            case 4: B.reset(new Resampling(std::move(*A))); break;
+            case 3: B.reset(new Resampling(12345u)); *B = std::move(*A); break;
+            case 5: B.reset(new Resampling(777u)); *B = *A; break;
+            case 6: case 12: B.reset(new RWP(std::move(static_cast<RWP&>(*A)))); break;
+            case 7: case 13: B.reset(new RWP(init(), other, 999u)); static_cast<RWP&>(*B) = std::move(static_cast<RWP&>(*A)); break;
+            default: break;
+        }
+        if (B) A.reset();                                 // the original is gone: only the obtained object is used from now on
+    };
     Out o; o.s("ok").n(calls);
     for (long c = 0; c < calls; ++c) {
+        if ((c == 0 && !late) || (c == 1 && late)) hand_over();
+        Resampling& r = B ? *B : *A;
         o.s("|");
-        if (kind == 1) o.s(rwp_call(prior, twin, ratio, ns[c], lins[c], circs[c], quats[c], ws[c]));
-        else o.s(rs_call(kind == 2 ? copy : kind == 3 ? moved : plain, twin, ns[c], lins[c], circs[c], quats[c], ws[c]));
+        if (prior) o.s(rwp_call(r, twin, ratio, ns[c], lins[c], circs[c], quats[c], ws[c]));
+        else o.s(rs_call(r, twin, ns[c], lins[c], circs[c], quats[c], ws[c]));
     }
     return o.str();
 }
